@@ -146,12 +146,27 @@ class DebugParser:
                 if s[self.i] == ']': self.i += 1; return out
                 out.append(self.value()); self.ws()
                 if s[self.i] == ',': self.i += 1
+        if c == '<':
+            j = s.index('>', self.i); tok = s[self.i:j + 1]; self.i = j + 1; return {'_': tok, 'args': []}          # opaque marker such as <uninit>
+        if c == '{':
+            # Debug of a map / set: {k: v, ...} or {v, ...}
+            self.i += 1; out = []
+            while True:
+                self.ws()
+                if s[self.i] == '}': self.i += 1; return {'_': 'map', 'items': out}
+                k = self.value(); self.ws()
+                if s[self.i] == ':':
+                    self.i += 1; out.append([k, self.value()])
+                else: out.append([k])
+                self.ws()
+                if s[self.i] == ',': self.i += 1
         if c.isdigit() or c == '-':
             j = self.i + 1
             while j < len(s) and s[j].isdigit(): j += 1
             v = int(s[self.i:j]); self.i = j; return v
         j = self.i
         while j < len(s) and (s[j].isalnum() or s[j] == '_'): j += 1
+        if j == self.i: raise ValueError('unexpected character %r in debug text at %d' % (s[self.i], self.i))
         ident = s[self.i:j]; self.i = j; self.ws()
         if ident == 'true': return True
         if ident == 'false': return False
@@ -199,11 +214,12 @@ def _canon(d):
             'children': [[c['_'], _canon(c['args'][0])] for c in d['children']],
             'position': _opt(d['position'])}
 
-def tree_from_rsym(el, conc=lambda v: v):
+def tree_from_rsym(el, conc=lambda v: v, conc_text=None):
     """rsym Element value -> same canonical dict (conc concretises symbolic leaves, e.g. with a model)"""
     f = el.f
     def opt(o): return None if o.variant == 'None' else conc(o.p[0].val if hasattr(o.p[0], 'val') else o.p[0])
-    return {'name': conc(f['name'].val), 'text': opt(f['text']), 'standalone': conc(f['standalone']), 'count': conc(f['count']),
+    def opt_text(o): return None if o.variant == 'None' else (conc_text or conc)(o.p[0].val if hasattr(o.p[0], 'val') else o.p[0])
+    return {'name': conc(f['name'].val), 'text': opt_text(f['text']), 'standalone': conc(f['standalone']), 'count': conc(f['count']),
             'attributes': [[a.variant, conc(a.p[0].val)] for a in f['attributes'].l],
-            'children': [[c.variant, tree_from_rsym(c.p[0], conc)] for c in f['children'].l],
+            'children': [[c.variant, tree_from_rsym(c.p[0], conc, conc_text)] for c in f['children'].l],
             'position': opt(f['position'])}
